@@ -263,6 +263,7 @@ func Generate(t *tape.Tape, p Profile) *App {
 		}
 	}
 
+	var lateNeg map[int]string
 	for i := 0; i < n; i++ {
 		t.Begin("node")
 		nd := &Node{Name: nodeName(i), Kind: gn[i].kind, Tpl: map[string]string{}}
@@ -371,6 +372,21 @@ func Generate(t *tape.Tape, p Profile) *App {
 		}
 		for _, s := range mapped {
 			code = append(code, Inst{Op: MAP, A: s})
+		}
+		// a CATCH after the MAPs (negative mapping probe): the target's template references a symbol
+		// that only THIS node maps, so the target must fail to render when the CATCH fires
+		if p.NegMapProbe && p.Catch && p.FlagCount > 0 && len(mapped) > 0 && t.Chance(1, 4) {
+			it := immTargets(i)
+			if len(it) > 0 {
+				j := it[t.Int(len(it))]
+				code = append(code, Inst{Op: CATCH, A: nodeName(j), N: userFlag(), M: t.Chance(1, 2)})
+				if lateNeg == nil {
+					lateNeg = map[int]string{}
+				}
+				if _, ok := lateNeg[j]; !ok {
+					lateNeg[j] = mapped[t.Int(len(mapped))]
+				}
+			}
 		}
 		// menu
 		if p.Menus && gn[i].kind != KEndAbnormal {
@@ -485,9 +501,12 @@ func Generate(t *tape.Tape, p Profile) *App {
 			}
 		}
 		nd.Tpl[""] = makeTpl(t, p, nd.Name, "", mapped, sink)
-		if p.NegMapProbe && len(a.Ext) > 0 && i > 0 && t.Chance(1, 6) {
+		if want, forced := lateNeg[i]; p.NegMapProbe && len(a.Ext) > 0 && i > 0 && (forced || t.Chance(1, 6)) {
 			// reference a symbol this node does not map: the render must fail whatever was mapped before the move
 			x := a.Ext[t.Int(len(a.Ext))].Name
+			if forced {
+				x = want
+			}
 			isMapped := false
 			for _, in := range code {
 				if (in.Op == MAP || in.Op == RELOAD) && in.A == x {
